@@ -1411,8 +1411,15 @@ class Interp:
             if isinstance(nm, str):
                 return vjoin(self.read_attr(fr, a0, nm, node), args[2] if len(args) > 2 else EMPTY)
             return generic()
-        if name == "builtins.setattr":
-            self.mutate(fr, node, a0, "setattr")
+        if name == "builtins.setattr" or name.endswith(".__setattr__"):
+            # setattr(o, "name", v) / object.__setattr__(o, "name", v): a field store on o
+            tgt = a0
+            nm = _single_const(args[1]) if len(args) > 1 else _NOCONST
+            self.mutate(fr, node, tgt, "setattr")
+            if isinstance(nm, str) and len(args) > 2:
+                for a in tgt:
+                    if a[0] == "obj":
+                        self.hadd(a, ("a", nm), args[2])
             return const(None)
         if short == "cast" and len(args) >= 2:
             return args[1]
